@@ -307,6 +307,9 @@ func (p PrefixExpression) PrettyPrint(out *PrintState) *PrintState {
 	needParen := out.AllParens || PREFIX <= oldPrecedence // double prefix like -(-a) needs parens to not become --a prefix.
 	if needParen {
 		out.Print("(")
+	} else if out.Compact && out.last != "" && out.last[len(out.last)-1] == p.Literal()[0] {
+		// a - -b or a + ++b must not become a--b or a+++b in compact mode.
+		out.Print(" ")
 	}
 	out.Print(p.Literal())
 	p.Right.PrettyPrint(out)
